@@ -1,9 +1,13 @@
 #!/bin/bash
-# run_all_seeds.sh [lanes]: every kept seeded change through harness/run_seed.sh; one summary line each, table in .work/seeds.txt
+# run_all_seeds.sh [lanes]: every kept seeded change through harness/run_seed.sh; one summary line each, table in .work/seeds.txt.
+# One lane per property: the seeds of one property run one after the other (a scratch run regenerates that property's coq/Gen files),
+# different properties run side by side.
 cd "$(dirname "$0")/.."
-LANES=${1:-3}
+LANES=${1:-4}
 mkdir -p .work
 : > .work/seeds.txt
-ls -d seeded/*/ | xargs -P $LANES -I{} bash -c 'harness/run_seed.sh {} 2>&1 | grep "^SEED" >> .work/seeds.txt'
+run_prop() { for d in seeded/$1-*/; do [ -f "$d/meta.json" ] && harness/run_seed.sh "$d" 2>&1 | grep "^SEED" >> .work/seeds.txt; done; }
+export -f run_prop
+ls -d seeded/C*/ | sed 's#seeded/\(C[0-9]*\)-.*#\1#' | sort -u | xargs -P $LANES -I{} bash -c 'run_prop {}'
 sort .work/seeds.txt
-echo "caught with a concrete replay: $(grep -c 'check_rc=1 .*no_failing_input_found=0' .work/seeds.txt) / $(ls -d seeded/*/ | wc -l)"
+echo "caught with a concrete replay: $(grep -c 'check_rc=1 .*no_failing_input_found=0' .work/seeds.txt) / $(ls -d seeded/C*/ | wc -l)"
